@@ -1,5 +1,6 @@
 import LentilVerif.Lemmas.Tilt
 import LentilVerif.Lemmas.Propagate
+import LentilVerif.Props.C02
 import Mathlib.Tactic.FieldSimp
 import Mathlib.Tactic.Linarith
 import Mathlib.Analysis.Real.Sqrt
@@ -101,6 +102,35 @@ theorem tilt_ramp_equiv (hexp : ∀ a b : R, (CxLike.expI (a + b) : K) = CxLike.
 theorem ramp_is_opd_ramp (dx du wl z th X : R) (os : R) (hw : wl ≠ 0) (hz : z ≠ 0) (hos : os ≠ 0) (hdu : du ≠ 0) :
     RealLike.twoPi * ((dx * du) / (wl * z * os)) * X * (z * th / du * os) = RealLike.twoPi * (th * X * dx) / wl := by
   field_simp
+
+/-- the input field multiplied by the phase ramp of a displacement `(sr, sc)` output samples (for `alpha` as in
+`ramp_is_opd_ramp` this is the phasor of the OPD ramp `thx*r*dx0 - thy*c*dx1`, `r`/`c` global pupil coordinates) -/
+def rampField (f : Fld K) (αr αc sr sc : R) : Fld K :=
+  { f with arr := { f.arr with get := fun x y => f.arr.get x y *
+      ((CxLike.expI (RealLike.twoPi * αr * RealLike.ofInt (cc f.arr.s0 x + f.o0) * sr) : K) *
+       CxLike.expI (RealLike.twoPi * αc * RealLike.ofInt (cc f.arr.s1 y + f.o1) * sc)) } }
+
+/-- **Tilt as metadata ≡ tilt in the OPD, sample for sample wherever both evaluate.** Propagating the field with the
+tilt carried as metadata (shift `fix + sub` in output samples, any integer split, any output extent / propagation shape)
+and propagating the field multiplied by the corresponding phase ramp with no metadata (any other output extent /
+propagation shape) give the same complex value at every global output coordinate lying in both evaluated windows. -/
+theorem tilt_metadata_equiv_opd_ramp (hcast : ∀ n : Int, (RealLike.ofInt n : R) = (n : R))
+    (hexp : ∀ a b : R, (CxLike.expI (a + b) : K) = CxLike.expI a * CxLike.expI b)
+    (f : Fld K) (fix0 fix1 : Int) (sub0 sub1 αr αc : R) (oe oe' : Extent) (P0 P1 P0' P1' : Int)
+    (hoe : oe.rmin ≤ oe.rmax ∧ oe.cmin ≤ oe.cmax) (hP : 0 < P0 ∧ 0 < P1)
+    (hoe' : oe'.rmin ≤ oe'.rmax ∧ oe'.cmin ≤ oe'.cmax) (hP' : 0 < P0' ∧ 0 < P1') (r c : Int)
+    (hin : (oe.inb r c && (propExtent P0 P1 fix0 fix1).inb r c) = true)
+    (hin' : (oe'.inb r c && (propExtent P0' P1' 0 0).inb r c) = true) :
+    embO (propagateField ⟨f, fix0, fix1, sub0, sub1⟩ αr αc oe P0 P1) r c =
+    embO (propagateField ⟨rampField f αr αc (RealLike.ofInt fix0 + sub0) (RealLike.ofInt fix1 + sub1), 0, 0, 0, 0⟩
+        αr αc oe' P0' P1') r c := by
+  rw [C02.propagateField_sample hcast _ αr αc oe P0 P1 hoe hP r c,
+      C02.propagateField_sample hcast _ αr αc oe' P0' P1' hoe' hP' r c]
+  simp only [hin, hin', if_true]
+  unfold fraunhoferAt rampField
+  simp only []
+  rw [tilt_ramp_equiv hexp]
+  apply dft2_get_congr <;> (simp only [hcast]; push_cast; ring)
 
 /-- non-vacuity of `hexp`: the complex exponential `t ↦ exp(i t)` is additive -/
 example : ∀ a b : ℝ, Complex.exp (((a + b : ℝ) : ℂ) * Complex.I) = Complex.exp ((a : ℂ) * Complex.I) * Complex.exp ((b : ℂ) * Complex.I) := by
